@@ -12,7 +12,7 @@ CONSTANTS
   Modes = {"all"}
   MaxLoss = 1
   MaxDup = 1
-  MaxPopCalls = 2
+  MaxPopCalls = 1
   MaxMidFlush = 1
   Eagers = {FALSE}
   Holds = {0}
